@@ -10,7 +10,7 @@ EXTENDS RosmarLifeOps, IOUtils, FiniteSetsExt
 TraceLog == ndJsonDeserialize(IOEnv.VERIF_TRACE)
 
 VARIABLES l, M, nfail,
-          lag   \* deviations already reported once: [done: set of feeds whose done state differs, gor: goroutine offset]
+          lag   \* deviations of the asynchronous observations at the previous step, and those already reported
 tvars == <<l, M, nfail, lag>>
 
 SeqToSet(s) == {s[i] : i \in 1..Len(s)}
@@ -18,7 +18,7 @@ Fail(props, e, what, exp, got) == PrintT(<<"FAIL", props, e.tr, e.i, "life", e.a
 F(ok, props, e, what, exp, got) == IF ok THEN 0 ELSE IF Fail(props, e, what, exp, got) THEN 1 ELSE 1
 SumOver(X, f(_)) == FoldSet(LAMBDA x, acc : acc + f(x), 0, X)
 
-TInit == l = 1 /\ M = Init0 /\ nfail = 0 /\ lag = [done |-> {}, gor |-> 0]
+TInit == l = 1 /\ M = Init0 /\ nfail = 0 /\ lag = [n |-> [f \in FeedIds |-> 0], nRep |-> [f \in FeedIds |-> 0], done |-> {}, doneRep |-> {}, gor |-> 0, gorRep |-> 0]
 
 Step(e) ==
     LET \* a write through a handle whose cached collection may be stale is unconstrained; if it succeeded it is a write
@@ -45,10 +45,11 @@ Step(e) ==
                    LET st == N.store[hd.n][hd.u]
                        same(c, got) == SeqToSet(got) = st.docs[c]
                        \* a deviation in a collection other than the one the call addressed is (also) a breach of isolation
-                       other == \/ (a.c # "c0" /\ ~same("c0", o.c0)) \/ (a.c # "c1" /\ ~same("c1", o.c1)) \/ (a.c # "c2" /\ ~same("c2", o.c2)) IN
-                   F(o.cls = "ok" /\ same("c0", o.c0) /\ same("c1", o.c1) /\ same("c2", o.c2) /\ o.dd = st.dd /\ o.has1 = st.c1,
+                       other == \/ (a.c # "c0" /\ ~same("c0", o.c0)) \/ (a.c # "c1" /\ ~same("c1", o.c1)) \/ (a.c # "c2" /\ ~same("c2", o.c2))
+                                \/ (a.c # "c3" /\ ~same("c3", o.c3)) IN
+                   F(o.cls = "ok" /\ same("c0", o.c0) /\ same("c1", o.c1) /\ same("c2", o.c2) /\ same("c3", o.c3) /\ o.dd = st.dd /\ o.has1 = st.c1,
                      {"C13"} \cup (IF a.kind = "Drop" \/ (a.kind = "Write" /\ other) THEN {"C11"} ELSE {}), e, <<"open-handle-view", h, M.hs[a.h].st>>,
-                     <<st.docs["c0"], st.docs["c1"], st.docs["c2"], st.dd, st.c1>>, <<o.cls, o.c0, o.c1, o.c2, o.dd, o.has1>>)
+                     <<st.docs["c0"], st.docs["c1"], st.docs["c2"], st.docs["c3"], st.dd, st.c1>>, <<o.cls, o.c0, o.c1, o.c2, o.c3, o.dd, o.has1>>)
               [] hd.st = "open" /\ hd.stale ->
                    F(o.cls = "ok" /\ SeqToSet(o.c0) = N.store[hd.n][hd.u].docs["c0"] /\ SeqToSet(o.c2) = N.store[hd.n][hd.u].docs["c2"],
                      {"C13"} \cup (IF a.kind = "Write" /\ a.c = "c1" THEN {"C11"} ELSE {}), e, <<"open-handle-view", h, "stale">>,
@@ -63,34 +64,50 @@ Step(e) ==
         \* data on disk exists exactly for the stores the specification has
         fDir(n, u) == F(e.dirs[n \o "/" \o u] = N.store[n][u].exists, {"C13"}, e, <<"disk-data", n, u>>,
                         N.store[n][u].exists, e.dirs[n \o "/" \o u])
-        \* feeds: exactly one event for every running feed on the written collection, none otherwise; done iff ended
-        fFeed(f) ==
-            LET o == e.fd[f]
-                hd0 == M.hs[a.h]
-                wantN == IF f \in recv THEN 1
-                         ELSE IF a.kind = "StartFeed" /\ a.f = f /\ a.fk \in {"dump", "ckpt"} /\ hd0.st = "open"
-                         THEN Cardinality(M.store[hd0.n][hd0.u].docs[a.c])    \* a dump / a resuming feed delivers the existing documents
-                         ELSE 0 IN
-            IF N.fd[f].loose \/ M.fd[f].loose THEN 0 ELSE
-            F(o.n = wantN, {"C16", "C08"}, e,
-              <<IF o.n < wantN THEN "feed-starved" ELSE "unexpected-callback", f, M.fd[f].st, M.fd[f].kind>>, wantN, o.n)
-            + F(o.done = N.fd[f].done \/ f \in lag.done, {"C16"} \cup (IF a.kind \in {"Close", "CloseAndDelete"} THEN {"C20"} ELSE {}), e,
-                <<IF o.done THEN "feed-ended-unexpectedly" ELSE "feed-not-ended", f, N.fd[f].kind, a.kind>>, N.fd[f].done, o.done)
+        \* Feeds are asynchronous: an event, the closing of a done channel or the exit of a runner may be observed one
+        \* step late when the machine is busy.  A deviation is therefore reported when it has *persisted* - it is the
+        \* same at two consecutive observations (every behaviour ends with two extra observations after a pause) - and
+        \* once.  Callbacks are compared cumulatively, so an event that is merely late cancels out; a lost, duplicated
+        \* or spurious one does not.
+        wantN(f) == LET hd0 == M.hs[a.h] IN
+                    IF f \in recv THEN 1
+                    ELSE IF a.kind = "StartFeed" /\ a.f = f /\ a.fk \in {"dump", "ckpt"} /\ hd0.st = "open"
+                    THEN Cardinality(M.store[hd0.n][hd0.u].docs[a.c])    \* a dump / a resuming feed delivers the existing documents
+                    ELSE 0
+        isLoose(f) == N.fd[f].loose \/ M.fd[f].loose
+        nd == [f \in FeedIds |-> IF isLoose(f) THEN 0 ELSE lag.n[f] + e.fd[f].n - wantN(f)]      \* cumulative surplus of callbacks
+        dd == {f \in FeedIds : ~isLoose(f) /\ e.fd[f].done # N.fd[f].done}
         \* goroutines: one runner per collection of every running feed, nothing else
         wantGor == SumOver({f \in FeedIds : N.fd[f].st = "running"}, LAMBDA f : Cardinality(N.fd[f].colls))
-        anyLoose == \E f \in FeedIds : N.fd[f].loose \/ M.fd[f].loose
-        fGor == IF anyLoose THEN 0 ELSE F(e.gor - wantGor = lag.gor, {"C20", "C16"}, e, <<"feed-goroutines", a.kind>>, wantGor + lag.gor, e.gor)
+        anyLoose == \E f \in FeedIds : isLoose(f)
+        gd == IF anyLoose THEN 0 ELSE e.gor - wantGor
+        fFeed(f) ==
+            F(~(nd[f] # 0 /\ nd[f] = lag.n[f] /\ nd[f] # lag.nRep[f]), {"C16", "C08"}, e,
+              <<IF nd[f] < 0 THEN "feed-starved" ELSE "unexpected-callback", f, M.fd[f].st, M.fd[f].kind>>, 0, nd[f])
+            + F(~(f \in dd /\ f \in lag.done /\ f \notin lag.doneRep), {"C16", "C20"}, e,
+                <<IF e.fd[f].done THEN "feed-ended-unexpectedly" ELSE "feed-not-ended", f, N.fd[f].kind>>, N.fd[f].done, e.fd[f].done)
+        fGor == F(~(gd # 0 /\ gd = lag.gor /\ gd # lag.gorRep), {"C20", "C16"}, e, <<"feed-goroutines">>, wantGor, e.gor)
     IN
     /\ M' = N
-    /\ lag' = [done |-> {f \in FeedIds : e.fd[f].done # N.fd[f].done}, gor |-> e.gor - wantGor]
+    /\ lag' = [n |-> nd,
+               nRep |-> [f \in FeedIds |-> IF nd[f] = 0 THEN 0 ELSE IF nd[f] = lag.n[f] THEN nd[f] ELSE lag.nRep[f]],
+               done |-> dd,
+               doneRep |-> {f \in dd : f \in lag.done},
+               gor |-> gd,
+               gorRep |-> IF gd = 0 THEN 0 ELSE IF gd = lag.gor THEN gd ELSE lag.gorRep]
     /\ nfail' = nfail + fRes + SumOver(Handles, fHandle) + SumOver(Names, fReg)
                 + SumOver(Names \X {"d1", "d2"}, LAMBDA p : fDir(p[1], p[2])) + SumOver(FeedIds, fFeed) + fGor
+
+Lag0 == [n |-> [f \in FeedIds |-> 0], nRep |-> [f \in FeedIds |-> 0], done |-> {}, doneRep |-> {}, gor |-> 0, gorRep |-> 0]
 
 TNext ==
     /\ l <= Len(TraceLog)
     /\ l' = l + 1
     /\ LET e == TraceLog[l] IN
-       IF e.k = "reset" THEN M' = Init0 /\ nfail' = nfail /\ lag' = [done |-> {}, gor |-> 0] ELSE Step(e)
+       IF e.k = "reset"
+       THEN /\ M' = [Init0 EXCEPT !.store = [n \in Names |-> [u \in Urls |-> IF e.pre /\ u # "mem" THEN [NoStore EXCEPT !.dir = TRUE] ELSE NoStore]]]
+            /\ nfail' = nfail /\ lag' = Lag0
+       ELSE Step(e)
 
 TSpec == TInit /\ [][TNext]_tvars
 Accepted == TLCGet("stats").diameter - 1 = Len(TraceLog)
